@@ -92,14 +92,12 @@ Proof.
     split; [exact Ed|]. split; [apply (dacc_create S S2 d HS HS2 Ed)|]. split; [exact Er|]. split; [exact O1|]. split; [exact O2|exact O3].
 Qed.
 
-(* PARTIAL (allocation clause).  Full statement wanted: work and allocation of each reader are
-   <= c * length input, on a cost-instrumented model.  Proved here: whatever a reader returns holds
-   no more words (buffer words + map/set entries) than the input had units - every buffer the code
-   grows while reading is one of these and only grows, so this bounds the allocation of successful
-   reads.  Missing: the transient state of failing reads (the model does not expose it), the
-   scratch Vec<i32> of RawSnap::read (one word per decoded int, <= input bytes) and the real
-   allocator (Vec doubling, BTreeMap nodes) - those are covered by the harness' allocation meter
-   on the real code (peak live bytes <= 48 x input bytes + 4 KiB on every hostile input). *)
+(* Allocation clause, first half: whatever a reader RETURNS holds no more words (buffer words +
+   map/set entries) than the input had units.  The full clause - the high-water mark of every
+   buffer, map and set during the call, on successful AND failing reads, is at most a small
+   multiple of the input - is proved on the cost-instrumented twins in Props/C11alloc.v
+   (C11_alloc, C11_alloc_erasure); the real allocator's slack (Vec doubling, BTreeMap nodes) is
+   tied to the model's high-water mark by the harness (real peak bytes <= 16 x words + 512). *)
 Theorem C11_alloc_partial :
   (forall ints S ws, raw_read_from_ints ints = (Ok S, ws) -> held S <= Z.of_nat (length ints))
   /\ (forall bs S ws, bytes_ok bs = true -> raw_read_bytes bs = (Ok S, ws) -> held S <= Z.of_nat (length bs))
